@@ -326,13 +326,12 @@ def strip_calls(text):
 
 
 def merged_graph(nodes, edges, inits):
-    """Forget the call counter: one node per abstract state."""
+    """Forget the call counter: one node per abstract state.  Node ids are made canonical (rank of the state text), so
+    that everything derived from the graph depends on the spec and the seed only, not on TLC's fingerprints."""
     key = {nid: strip_calls(t) for nid, t in nodes.items()}
-    ids = {}
-    for nid in sorted(nodes, key=lambda x: (len(x), x)):
-        ids.setdefault(key[nid], nid)
-    rep = {nid: ids[key[nid]] for nid in nodes}
-    n2 = {rep[nid]: nodes[nid] for nid in nodes if rep[nid] == nid}
+    rank = {t: "s%d" % i for i, t in enumerate(sorted(set(key.values())))}
+    rep = {nid: rank[key[nid]] for nid in nodes}
+    n2 = {rank[t]: t for t in rank}
     e2 = sorted({(rep[a], act, rep[b]) for a, act, b in edges if a in rep and b in rep})
     return n2, e2, sorted({rep[i] for i in inits})
 
@@ -340,24 +339,57 @@ def merged_graph(nodes, edges, inits):
 _EDGES = {}
 
 
+def load_graph(ctx, flavour, paths, inits, depth, label, workers=8, cfg_name=None):
+    """Model-check WorkingTree and keep its merged state graph under its key."""
+    gkey = "%s/%s/%d" % (flavour, len(paths), depth)
+    if gkey in GRAPHS:
+        return gkey
+    if cfg_name:
+        nodes, edges, ini, res = tlc.graph(ctx, "WorkingTree", cfg=cfg_name, workers=workers, label=label)
+    else:
+        nodes, edges, ini, res = tlc.graph(ctx, "WorkingTree", cfg_text=cfg(flavour, paths, inits, depth), workers=workers,
+                                           label=label)
+    if "Error:" in res["output"]:
+        ctx.machinery("TLC reported an error on WorkingTree:\n" + res["output"][-2000:])
+    nodes, edges, ini = merged_graph(nodes, edges, ini)
+    if not edges:
+        ctx.machinery("empty state graph")
+    out = {nid: {} for nid in nodes}
+    for a, act, b in edges:
+        out[a].setdefault(act, []).append(b)
+    GRAPHS[gkey] = (nodes, out)
+    _EDGES[gkey] = (edges, ini)
+    return gkey
+
+
+def prefetch(ctx, inits, specs):
+    """The TLC runs of a tier side by side (own cfg names: vf.tlc derives them from a directory listing, which races)."""
+    import time
+    from concurrent.futures import ThreadPoolExecutor
+    d = tlc.stage(ctx.workdir)
+    width = max(1, min(len(specs), core.max_workers() // 4 or 1))
+    per = max(1, core.max_workers() // width)
+    jobs = []
+    for i, (fl, paths, depth) in enumerate(specs):
+        name = "C09_%d.cfg" % i
+        with open(os.path.join(d, name), "w") as f:
+            f.write(cfg(fl, paths, inits, depth))
+        jobs.append((fl, paths, depth, name, i))
+
+    def one(j):
+        fl, paths, depth, name, i = j
+        time.sleep(0.2 * i)         # vf.tlc names its scratch files by the clock
+        return load_graph(ctx, fl, paths, inits, depth, "MC + graph %s %d paths depth %d" % (fl, len(paths), depth), per, name)
+
+    with ThreadPoolExecutor(width) as ex:
+        list(ex.map(one, jobs))
+
+
 def graph_paths(ctx, flavour, paths, inits, depth, label, max_len=None):
-    """Model-check, dump the state graph, register it under a key, return (key, [(init node, [labels])]).
+    """(graph key, [(init node, [labels])]): a transition cover of the state graph.
     max_len: longest cover path in calls (default = depth; longer paths run through states that are reachable in fewer
     calls another way - the call counter is forgotten when the graph is merged)."""
-    gkey = "%s/%s/%d" % (flavour, len(paths), depth)
-    if gkey not in GRAPHS:
-        c = cfg(flavour, paths, inits, depth)
-        nodes, edges, ini, res = tlc.graph(ctx, "WorkingTree", cfg_text=c, workers=8, label=label)
-        if "Error:" in res["output"]:
-            ctx.machinery("TLC reported an error on WorkingTree:\n" + res["output"][-2000:])
-        nodes, edges, ini = merged_graph(nodes, edges, ini)
-        if not edges:
-            ctx.machinery("empty state graph")
-        out = {nid: {} for nid in nodes}
-        for a, act, b in edges:
-            out[a].setdefault(act, []).append(b)
-        GRAPHS[gkey] = (nodes, out)
-        _EDGES[gkey] = (edges, ini)
+    gkey = load_graph(ctx, flavour, paths, inits, depth, label)
     nodes, out = GRAPHS[gkey]
     edges, ini = _EDGES[gkey]
     cover = [(p[0][1], [act for act, _ in p[1:]]) for p in
@@ -403,6 +435,7 @@ def run(ctx):
                 return
         ctx.machinery("vacuity guard: the %s state graph has no state with %s" % (flavour, sorted(need)))
 
+    prefetch(ctx, inits, [("bzr", SMALL, 4), ("git", SMALL, 4), ("bzr", WIDE, 3), ("git", WIDE, 3)])
     if ctx.quick:
         plan("bzr", ["2a"], SMALL, 4, 500)
         plan("git", ["git"], SMALL, 4, 300)
